@@ -1,3 +1,267 @@
-//! C28 (placeholder, filled in below)
+//! C28 recorder (spec/GitIgnore.tla): three-way comparison material.
+//!
+//! Domain (from the VOCAB record MC_GitIgnore prints): an ignore file at the
+//! root and one in a sub-directory, up to --maxroot / --maxsub lines each from
+//! the vocabulary, judged on a fixed path universe.  For every case the
+//! recorder logs, per path,
+//!   jj    GitIgnoreFile::chain + matches_file/matches_dir with the parent
+//!         directory recursion of the snapshot walk, ignore files at "" / sub
+//!   jjp   the same with everything moved under a case directory (prefix
+//!         stripping with non-root prefixes)
+//!   git   `git check-ignore --stdin -z` in a scratch repository where the
+//!         case lives in that case directory and the paths exist on disk
+//!   snap  (with --snap) files only: whether a real snapshot of a workspace
+//!         holding the same files leaves the file untracked
+//! It decides nothing; Trace_GitIgnore judges.
+use std::collections::HashSet;
+use std::fs;
+use std::path::Path;
+use std::sync::Arc;
+
+use jj_lib::gitignore::GitIgnoreFile;
+use jj_lib::repo_path::RepoPath;
+use jj_lib::repo_path::RepoPathBuf;
 use jjconf::util::Opts;
-pub fn run(_opts: &Opts) -> Result<(), String> { Err("not yet".into()) }
+use jjconf::util::Out;
+use jjconf::util::Rng;
+use serde_json::Value;
+use serde_json::json;
+use testutils::TestWorkspace;
+
+use crate::common::git_raw;
+
+struct Domain {
+    vocab: Vec<String>,       // lines as text
+    vocab_json: Vec<Value>,   // lines as arrays of 1-char strings (for the judge)
+    paths: Vec<(Vec<String>, bool, Value)>, // components, is_dir, json
+    sub: Vec<String>,
+    sub_json: Value,
+}
+
+fn chars_to_string(v: &Value) -> String {
+    v.as_array()
+        .map(|a| a.iter().map(|c| c.as_str().unwrap_or("")).collect::<String>())
+        .unwrap_or_default()
+}
+
+fn load_domain(path: &str) -> Result<Domain, String> {
+    let text = fs::read_to_string(path).map_err(|e| format!("{path}: {e}"))?;
+    let v: Value = serde_json::from_str(&text).map_err(|e| format!("{path}: {e}"))?;
+    let vocab_json: Vec<Value> = v["vocab"].as_array().ok_or("vocab")?.clone();
+    let vocab = vocab_json.iter().map(chars_to_string).collect();
+    let comps = |p: &Value| -> Vec<String> { p.as_array().map(|a| a.iter().map(chars_to_string).collect()).unwrap_or_default() };
+    let paths = v["paths"]
+        .as_array()
+        .ok_or("paths")?
+        .iter()
+        .map(|p| (comps(&p["p"]), p["d"].as_bool().unwrap_or(false), p.clone()))
+        .collect();
+    Ok(Domain {
+        vocab,
+        vocab_json,
+        paths,
+        sub: comps(&v["sub"]),
+        sub_json: v["sub"].clone(),
+    })
+}
+
+fn file_text(dom: &Domain, ix: &[usize]) -> Vec<u8> {
+    let mut s = String::new();
+    for &i in ix {
+        s.push_str(&dom.vocab[i]);
+        s.push('\n');
+    }
+    s.into_bytes()
+}
+
+fn repo_path(prefix: &[String], comps: &[String]) -> RepoPathBuf {
+    let all: Vec<&str> = prefix.iter().chain(comps.iter()).map(|s| s.as_str()).collect();
+    RepoPathBuf::from_internal_string(all.join("/")).expect("valid repo path")
+}
+
+/// jj's answer for one path: the walk of local_working_copy.rs
+/// (visit_directory chains the directory's .gitignore, process_dir_entry asks
+/// matches_dir for a directory entry and does not descend if ignored, asks
+/// matches_file for a file entry).
+fn jj_ignored(base: &[String], dom: &Domain, root: &[u8], sub: &[u8], comps: &[String], is_dir: bool) -> bool {
+    let sub_abs: Vec<String> = base.iter().chain(dom.sub.iter()).cloned().collect();
+    let mut chain: Arc<GitIgnoreFile> = GitIgnoreFile::empty();
+    // entering the case root
+    let here = repo_path(base, &[]);
+    chain = chain.chain(&here, Path::new(".gitignore"), root).unwrap();
+    for k in 1..=comps.len() {
+        let p = repo_path(base, &comps[..k]);
+        let last = k == comps.len();
+        if !last || is_dir {
+            if chain.matches_dir(&p) {
+                return true;
+            }
+            if last {
+                return false;
+            }
+            // entering directory p: its own ignore file joins the chain
+            let abs: Vec<String> = base.iter().chain(comps[..k].iter()).cloned().collect();
+            if abs == sub_abs {
+                chain = chain.chain(&p, Path::new(".gitignore"), sub).unwrap();
+            }
+        } else {
+            return chain.matches_file(&p);
+        }
+    }
+    unreachable!()
+}
+
+fn case_dir(i: usize) -> String {
+    format!("c{i:04}")
+}
+
+/// create the path universe under `root/<case dir>` for `n` case dirs
+fn make_universe(root: &Path, dom: &Domain, n: usize) -> Result<(), String> {
+    for i in 0..n {
+        let cd = root.join(case_dir(i));
+        for (comps, is_dir, _) in &dom.paths {
+            let p = comps.iter().fold(cd.clone(), |a, c| a.join(c));
+            if *is_dir {
+                fs::create_dir_all(&p).map_err(|e| e.to_string())?;
+            } else {
+                fs::create_dir_all(p.parent().unwrap()).map_err(|e| e.to_string())?;
+                fs::write(&p, b"x").map_err(|e| e.to_string())?;
+            }
+        }
+        let sd = dom.sub.iter().fold(cd.clone(), |a, c| a.join(c));
+        fs::create_dir_all(&sd).map_err(|e| e.to_string())?;
+    }
+    Ok(())
+}
+
+fn write_ignores(root: &Path, dom: &Domain, i: usize, rootf: &[u8], subf: &[u8]) -> Result<(), String> {
+    let cd = root.join(case_dir(i));
+    fs::write(cd.join(".gitignore"), rootf).map_err(|e| e.to_string())?;
+    let sd = dom.sub.iter().fold(cd, |a, c| a.join(c));
+    fs::write(sd.join(".gitignore"), subf).map_err(|e| e.to_string())?;
+    Ok(())
+}
+
+fn enumerate(v: usize, max: usize) -> Vec<Vec<usize>> {
+    let mut out = vec![vec![]];
+    let mut layer: Vec<Vec<usize>> = vec![vec![]];
+    for _ in 0..max {
+        let mut next = vec![];
+        for l in &layer {
+            for x in 0..v {
+                let mut m = l.clone();
+                m.push(x);
+                next.push(m);
+            }
+        }
+        out.extend(next.iter().cloned());
+        layer = next;
+    }
+    out
+}
+
+pub fn run(opts: &Opts) -> Result<(), String> {
+    let dom = load_domain(opts.get("vocab").ok_or("--vocab required")?)?;
+    let mut out = Out::create(&opts.str("out", "/dev/stdout"))?;
+    let (maxroot, maxsub) = (opts.usize("maxroot", 2), opts.usize("maxsub", 1));
+    let batch = opts.usize("batch", 256);
+    let snap_every = opts.usize("snap", 0); // 0 = never, k = every k-th batch gets a real snapshot
+    let roots = enumerate(dom.vocab.len(), maxroot);
+    let subs = enumerate(dom.vocab.len(), maxsub);
+    let mut cases: Vec<(Vec<usize>, Vec<usize>)> = vec![];
+    for r in &roots {
+        for s in &subs {
+            cases.push((r.clone(), s.clone()));
+        }
+    }
+    let total = cases.len();
+    // --sample N: a seeded sample of the product instead of all of it
+    let sample = opts.usize("sample", 0);
+    if sample > 0 && sample < cases.len() {
+        let mut rng = Rng::new(opts.u64("seed", 0));
+        rng.shuffle(&mut cases);
+        cases.truncate(sample);
+    }
+    // --shard i --of k
+    let (shard, of) = (opts.usize("shard", 0), opts.usize("of", 1));
+    let cases: Vec<_> = cases.into_iter().enumerate().filter(|(i, _)| i % of == shard).map(|(_, c)| c).collect();
+
+    out.emit(&json!({"op": "domain", "vocab": dom.vocab.len(), "paths": dom.paths.len(), "maxroot": maxroot,
+                     "maxsub": maxsub, "product": total, "cases": cases.len(), "shard": shard, "of": of}));
+
+    // scratch git repository holding `batch` case directories
+    let tmp = testutils::new_temp_dir();
+    let scratch = tmp.path().join("scratch");
+    fs::create_dir_all(&scratch).map_err(|e| e.to_string())?;
+    let (ok, _, err) = git_raw(&scratch, true, &["init", "-q"], None);
+    if !ok {
+        return Err(format!("git init: {err}"));
+    }
+    make_universe(&scratch, &dom, batch.min(cases.len().max(1)))?;
+
+    for (bno, chunk) in cases.chunks(batch).enumerate() {
+        // git: write the ignore files of the whole batch, one check-ignore for all paths
+        let mut stdin: Vec<u8> = vec![];
+        for (i, (r, s)) in chunk.iter().enumerate() {
+            write_ignores(&scratch, &dom, i, &file_text(&dom, r), &file_text(&dom, s))?;
+            for (comps, _, _) in &dom.paths {
+                stdin.extend_from_slice(format!("{}/{}", case_dir(i), comps.join("/")).as_bytes());
+                stdin.push(0);
+            }
+        }
+        let (_ok, stdout, err) = git_raw(&scratch, true, &["check-ignore", "--stdin", "-z"], Some(&stdin));
+        if !err.trim().is_empty() {
+            return Err(format!("git check-ignore: {err}"));
+        }
+        let ignored_by_git: HashSet<String> = stdout
+            .split(|&b| b == 0)
+            .filter(|x| !x.is_empty())
+            .map(|x| String::from_utf8_lossy(x).into_owned())
+            .collect();
+
+        // optional: a real snapshot of a workspace with the same files
+        let mut tracked: Option<HashSet<String>> = None;
+        if snap_every > 0 && bno % snap_every == 0 {
+            let mut ws = TestWorkspace::init();
+            let root = ws.workspace.workspace_root().to_owned();
+            make_universe(&root, &dom, chunk.len())?;
+            for (i, (r, s)) in chunk.iter().enumerate() {
+                write_ignores(&root, &dom, i, &file_text(&dom, r), &file_text(&dom, s))?;
+            }
+            let tree = ws.snapshot().map_err(|e| format!("snapshot: {e}"))?;
+            let mut set = HashSet::new();
+            for (path, _value) in tree.entries() {
+                set.insert(path.as_internal_file_string().to_string());
+            }
+            tracked = Some(set);
+        }
+
+        for (i, (r, s)) in chunk.iter().enumerate() {
+            let rootf = file_text(&dom, r);
+            let subf = file_text(&dom, s);
+            let base = vec![case_dir(i)];
+            let mut res = vec![];
+            for (comps, is_dir, pj) in &dom.paths {
+                let jj = jj_ignored(&[], &dom, &rootf, &subf, comps, *is_dir);
+                let jjp = jj_ignored(&base, &dom, &rootf, &subf, comps, *is_dir);
+                let key = format!("{}/{}", case_dir(i), comps.join("/"));
+                let git = ignored_by_git.contains(&key);
+                let mut rec = json!({"p": pj["p"], "d": is_dir, "jj": jj, "jjp": jjp, "git": git});
+                if let Some(t) = &tracked
+                    && !*is_dir
+                {
+                    rec["snap"] = json!(!t.contains(&key));
+                }
+                res.push(rec);
+            }
+            let lines = |ix: &[usize]| -> Vec<Value> { ix.iter().map(|&k| dom.vocab_json[k].clone()).collect() };
+            out.emit(&json!({"op": "ignore", "root": lines(r), "sub": lines(s), "subdir": dom.sub_json,
+                             "rootix": r, "subix": s, "snapped": tracked.is_some(), "res": res}));
+        }
+    }
+    out.finish();
+    Ok(())
+}
+
+#[allow(dead_code)]
+fn _unused(_: &RepoPath) {}
